@@ -228,6 +228,7 @@ def run(ctx):
     fs.disarm()
     on_disk = fs.read_real_bytes(path) if path.exists() else b""
     ctx.log("export", plan_kind, k, len(expected), len(on_disk), acked)
+    ctx.measure("write_fault_positions (plan, cut, length)", (plan_kind, k, len(expected)))
     ctx.note(f"{'joint' if multi else 'single'} trajectory, {len(triplets)} steps; export plan={plan_kind} k={k} "
              f"acked={acked} on disk {len(on_disk)}/{len(expected)}")
     ctx.nontrivial = fault or distinct_states >= 2
